@@ -230,6 +230,27 @@ def install(fault=None):
     wrap_apply(sh, 'hier')
     wrap_apply(sd, 'ddmin')
 
+    # ---- command executions (C10) -----------------------------------------
+    real_execute = checker.execute
+
+    def execute(cmd, filename, timeout):
+        import time as _t
+        t0 = _t.time()
+        res = None
+        try:
+            res = real_execute(cmd, filename, timeout)
+            return res
+        finally:
+            emit('exec', timeout=timeout, wall_ms=int((_t.time() - t0) * 1000),
+                 exit=None if res is None else res.exit,
+                 timed_out=None if res is None else (res.out is None),
+                 cc=(cmd is not None and cmd == getattr(
+                     __import__('ddsmt.options', fromlist=['x']).args(),
+                     'cmd_cc', None)),
+                 file=os.path.basename(filename))
+
+    checker.execute = execute
+
     # ---- golden runs ---------------------------------------------------
     real_golden = checker.do_golden_runs
 
